@@ -234,6 +234,17 @@ def corpus(tier, seed):
                 inp["byb"] = True
                 inp["hh_vs"] = m
                 inputs.append(inp)
+    # large requests at the sizes where batching / chunking code changes branch (powers of two and of ten): one or two blocs, few candidates
+    for n in ([1024, 4096, 10000, 32768, 65536] if q else [1000, 1024, 2048, 4096, 8192, 10000, 16384, 32768, 65536, 100000]):
+        # (not the crossover models: their four voter types put the Huntington-Hill products beyond TLC's 32-bit integers at these sizes)
+        for kind in ["sPL", "sBT", rng.choice(["PL", "shortPL", "Cumulative"])] + ([] if q else ["PL", "Cumulative"]):
+            inp = _bloc_input(rng, kind, rng.choice([1, 1, 2]), n)
+            for k in ("via", "twice", "names"):
+                inp.pop(k, None)
+            if len(inp["blocs"]) == 2 and kind != "AC":
+                inp["props"] = dict(zip(inp["blocs"], [rat(H), rat(H)]))
+            inp["byb"] = True
+            inputs.append(inp)
     for kind in FREE_KINDS:
         for i in range(per_free_kind):
             variant = ""
@@ -470,7 +481,7 @@ def run(tier, seed, replay=None):
             res.nontrivial.add(k)
         if t["error"]:
             errs.setdefault("%s:%s" % (t["op"], t["error"]), t.get("_errmsg", ""))
-    judge_calls(res, PID, "GeneratorsTrace", traces, sig_of=_sig, what="generated profile violates the structure clause")
+    judge_calls(res, PID, "GeneratorsTrace", traces, sig_of=_sig, what="generated profile violates the structure clause", bound=2**17)
     res.notes["calls_by_generator"] = kinds
     res.notes["exception_messages"] = errs
     res.notes["cambridge_data"] = "historical ballot types read from $VOTEKIT_SRC/votekit/data/Cambridge_09to17_ballot_types.p (available offline)"
